@@ -95,15 +95,18 @@ Record sval := {
   sv_tri : bool;       (* wrapped in / is a TriangularLinearOperator *)
   sv_upper : bool;     (* its `upper` flag *)
   sv_tri_ok : bool;    (* the content really is triangular with that orientation *)
-  sv_fam : fam
+  sv_fam : fam;
+  sv_inst : bool       (* isinstance(x, TriangularLinearOperator): false for the KroneckerProductTriangularLinearOperator
+                          factor of a Kronecker product although it is triangular and carries an `upper` flag *)
 }.
-Definition mkv k m ok tri up triok f : sval :=
-  {| sv_kind := k; sv_of := m; sv_ok := ok; sv_tri := tri; sv_upper := up; sv_tri_ok := triok; sv_fam := f |}.
+Definition mkv8 k m ok tri up triok f inst : sval :=
+  {| sv_kind := k; sv_of := m; sv_ok := ok; sv_tri := tri; sv_upper := up; sv_tri_ok := triok; sv_fam := f; sv_inst := inst |}.
+Definition mkv k m ok tri up triok f : sval := mkv8 k m ok tri up triok f tri.
 Definition plainv k m ok f := mkv k m ok false false true f.
 Definition with_kind (v : sval) (k : skind) : sval :=
-  mkv k (sv_of v) (sv_ok v) (sv_tri v) (sv_upper v) (sv_tri_ok v) (sv_fam v).
+  mkv8 k (sv_of v) (sv_ok v) (sv_tri v) (sv_upper v) (sv_tri_ok v) (sv_fam v) (sv_inst v).
 Definition with_ok (v : sval) (b : bool) : sval :=
-  mkv (sv_kind v) (sv_of v) b (sv_tri v) (sv_upper v) (sv_tri_ok v) (sv_fam v).
+  mkv8 (sv_kind v) (sv_of v) b (sv_tri v) (sv_upper v) (sv_tri_ok v) (sv_fam v) (sv_inst v).
 Definition label_ok (v : sval) : bool := negb (sv_tri v) || sv_tri_ok v.
 
 Definition is_factor (v : sval) (r : role) : bool :=
@@ -131,7 +134,7 @@ Definition iqld_rhs (v : sval) : option nat := match sv_kind v with KIqld r _ =>
 
 Definition sym_kern : kern := {|
   Mat := smat; Val := sval;
-  v_is_tri := sv_tri;
+  v_is_tri := fun v => sv_inst v && sv_tri v;
   v_tri_upper := sv_upper;
   v_root := sym_root;
   m_add_diag := SAddDiag; m_add_low_rank := SAddLR; m_cat_rows := SCat; m_getitem := SGet;
@@ -139,14 +142,14 @@ Definition sym_kern : kern := {|
   k_dense := fun A => plainv KDense A true FNone;
   k_chol := fun A up => Ok (mkv (KFactor (if up then RRootT else RRoot)) A true true up true FChol);
   k_tri_T := fun v => match sv_kind v with
-                      | KFactor r => mkv (KFactor (role_T r)) (sv_of v) (sv_ok v) (sv_tri v) (negb (sv_upper v)) (sv_tri_ok v) (sv_fam v)
+                      | KFactor r => mkv8 (KFactor (role_T r)) (sv_of v) (sv_ok v) (sv_tri v) (negb (sv_upper v)) (sv_tri_ok v) (sv_fam v) (sv_inst v)
                       | _ => with_ok v false end;
   k_symeig := fun A vecs => plainv (KEig vecs) A true FEig;
   k_eig_shift := fun A e => mkv (sv_kind e) A (sv_ok e) false false true (sv_fam e);
   k_svd_of_eig := fun e => plainv KSvd (sv_of e) (sv_ok e && is_eig e) FSvd;
   k_svd_shift := fun A u => mkv (sv_kind u) A (sv_ok u) false false true (sv_fam u);
   k_diagz_lanczos := fun A n r => if Nat.eqb n 1 then Raise IndexError else Ok (plainv (KEig true) A true (FDiagzL r));
-  k_cholop := fun c => mkv (KRootOp RRoot) (sv_of c) (sv_ok c && is_factor c RRoot) (sv_tri c) (sv_upper c) (sv_tri_ok c) (sv_fam c);
+  k_cholop := fun c => mkv8 (KRootOp RRoot) (sv_of c) (sv_ok c && is_factor c RRoot) (sv_tri c) (sv_upper c) (sv_tri_ok c) (sv_fam c) (sv_inst c);
   k_root_eig := fun e => plainv (KRootOp RRoot) (sv_of e) (sv_ok e && is_eig e) (sv_fam e);
   k_root_svd := fun u => plainv (KRootOp RRoot) (sv_of u) (sv_ok u && is_kind u KSvd) (sv_fam u);
   k_root_pivchol := fun A => plainv (KRootOp RRoot) A true FPiv;
@@ -187,7 +190,7 @@ Definition sym_kern : kern := {|
     let A' := SCat (sv_of E) B D in
     let ok := sv_ok E && is_factor E RRoot && sv_ok R && is_factor R RInv && compat E R in
     if geninv then
-      if sv_tri E && schur_tri then
+      if sv_inst E && sv_tri E && schur_tri then
         if sv_upper E then Raise NotImplementedError
         else (* new_root = TriangularLinearOperator(new_root); new_inv_root = new_root.inverse().mT *)
           let nr := mkv (KRootOp RRoot) A' ok true false (sv_tri_ok E) (FTrans B) in
@@ -198,9 +201,9 @@ Definition sym_kern : kern := {|
   k_eig_kron := fun A vecs es => plainv (KEig vecs) A (all_b (fun e => sv_ok e && is_kind e (KEig vecs)) es) FEig;
   k_svd_kron := fun A us => plainv KSvd A (all_b (fun u => sv_ok u && is_kind u KSvd) us) FSvd;
   k_chol_kron := fun A cs up =>
-    mkv (KFactor (if up then RRootT else RRoot)) A
-        (all_b (fun c => sv_ok c && is_factor c (if up then RRootT else RRoot) && sv_tri c && Bool.eqb (sv_upper c) up && sv_tri_ok c) cs)
-        true up true (FKron (map sv_fam cs));
+    mkv8 (KFactor (if up then RRootT else RRoot)) A
+         (all_b (fun c => sv_ok c && is_factor c (if up then RRootT else RRoot) && sv_tri c && Bool.eqb (sv_upper c) up && sv_tri_ok c) cs)
+         true up true (FKron (map sv_fam cs)) false;
   k_root_kron := fun A rs =>
     plainv (KRootOp RRoot) A (all_b (fun r => sv_ok r && is_rootop r RRoot && label_ok r && negb (sv_tri r && sv_upper r)) rs)
            (FKron (map sv_fam rs));
